@@ -188,6 +188,7 @@ pub fn well_formed(text: &str, toks: &[STok]) -> Result<(), (String, String)> {
     let lex: Vec<RTok> = reflex::lex(text);
     let valid = reflex::is_valid(&lex);
     let impl_toks = guarded(|| spl_frontend::lexer::lex(text)).unwrap_or_default();
+    let ix = lsptext::LineIndex::new(text);
     let mut prev_end: Option<(u32, u32)> = None;
     for (i, t) in toks.iter().enumerate() {
         if let Some((pl, pe)) = prev_end {
@@ -195,10 +196,10 @@ pub fn well_formed(text: &str, toks: &[STok]) -> Result<(), (String, String)> {
                 return Err(("overlap-or-not-increasing".into(), format!("token #{} {:?} starts before the end {:?} of its predecessor", i, t, (pl, pe))));
             }
         }
-        let Some(off) = lsptext::offset(text, t.line, t.start) else {
+        let Some(off) = ix.offset(t.line, t.start) else {
             return Err(("position-inside-surrogate-pair".into(), format!("{:?}", t)));
         };
-        if lsptext::position(text, off) != (t.line, t.start) {
+        if ix.position(off) != (t.line, t.start) {
             return Err(("position-outside-line".into(), format!("token #{} {:?}: the line is shorter", i, t)));
         }
         // lexically invalid text (malformed literal, stray character) has no defined reading:
@@ -247,7 +248,7 @@ pub fn well_formed(text: &str, toks: &[STok]) -> Result<(), (String, String)> {
             t if t.is_keyword() => "keyword",
             _ => continue,
         };
-        let pos = lsptext::position(text, x.range.start);
+        let pos = ix.position(x.range.start);
         if !toks.iter().any(|t| (t.line, t.start) == pos && t.ty == class) {
             return Err((format!("missing-{}-token", class), format!("no {} token for {:?} at {:?}", class, &text[x.range.clone()], pos)));
         }
@@ -312,10 +313,7 @@ fn eval_doc_inner(doc: &Doc, previous: Option<&str>) -> Vec<Failure> {
         Err(e) => return vec![Failure { key: "semtok:error".into(), case: doc.case(Value::Null), detail: e }],
     };
     let mut fails = vec![];
-    // (the well-formedness scan is quadratic; on the large programs the comparison with the
-    // expected list below settles it as well)
-    if doc.text().len() > 20_000 {
-    } else if let Err((k, d)) = well_formed(doc.text(), &got) {
+    if let Err((k, d)) = well_formed(doc.text(), &got) {
         fails.push(Failure { key: format!("semtok:ill-formed:{}", k), case: doc.case(Value::Null), detail: d });
         return fails;
     }
@@ -396,7 +394,9 @@ pub fn run(tier: Tier) -> Report {
             let layout = [Layout::Pretty, Layout::Crlf, Layout::Spaces][i % 3];
             let plain = Doc::new(it, layout, vec![]);
             let gaps = crate::checks::c04::focus_gaps(&pr, it.focus_decl);
-            for g in gaps.into_iter().step_by(tier.pick(2, 1)) {
+            // (large declarations: about 60 gaps)
+            let gstep = tier.pick(2, 1).max(gaps.len() / 60);
+            for g in gaps.into_iter().step_by(gstep) {
                 let with = Doc::new(it, layout, vec![g]);
                 let mut fs = vec![];
                 if incremental_tree_agrees(plain.text(), with.text()) {
